@@ -63,6 +63,18 @@ class ExcObj(Exception):
         return "ExcObj(%s,%s)" % (self.__typename__, self.__id__)
 
 
+class FalsyObj(Obj):
+    """An application object that is an empty collection of its own (falsy):
+    still an object, not a null."""
+    __slots__ = ()
+
+    def __len__(self):
+        return 0
+
+    def __repr__(self):
+        return "FalsyObj(%s,%s)" % (self.__typename__, self.__id__)
+
+
 def obj_type(o):
     return o["__typename__"] if isinstance(o, dict) else o.__typename__
 
@@ -136,6 +148,8 @@ class World:
                     fields[f] = self.make_default(tname, f, oid)
         if zlib.crc32(oid.encode()) % 5 == 0:
             return ExcObj(tname, oid, fields)
+        if zlib.crc32(oid.encode()) % 5 == 1:
+            return FalsyObj(tname, oid, fields)
         return Obj(tname, oid, fields)
 
     def gen(self, t, idseed, path, nullable=True):
